@@ -118,6 +118,7 @@ def snapshot_graph(graph: Any, kind: str, out: list[dict[str, Any]]) -> str:
             "inputs": [tok(v, "v") for v in graph.inputs],
             "outputs": [tok(v, "v") for v in graph.outputs],
             "inits": [tok(v, "v") for v in initializers.values()] if initializers is not None else [],
+            "init_names": [str(k) for k in initializers] if initializers is not None else [],
             "nodes": nodes,
         }
     )
